@@ -29,7 +29,7 @@ RULE = ("(a) bundled list, exhaustive: every rule as a host, with 1-2 extra labe
         "every hostname of depth <=4 over {a,b,c}; (d) every bundled TLD in 6 spellings + negatives. Non-trivial = the "
         "host matches >=2 rules, a wildcard or exception rule, or none; distinct = distinct (rule set, host input)")
 ASSUMPTIONS = [
-    "hosts are syntactically valid names (no empty inner labels, not IP-like / localhost-prefixed, which ural treats as special)",
+    "hosts are syntactically valid names (no empty inner labels; not 'localhost' or a dotted quad, which ural documents as special hosts; names merely *beginning* like one are in the domain)",
     "'no rule matches => no valid suffix' as the property states (the implicit '*' default rule of publicsuffix.org is not applied)",
     "rules are compared label-wise on the lower-cased host without IDNA conversion, i.e. against the bundled list as shipped "
     "(it contains both Unicode and punycode spellings)",
@@ -48,7 +48,7 @@ def bundled():
     return _BUNDLED
 
 
-_SPECIAL = re.compile(r"^(localhost|(\d{1,3}\.){3}\d{1,3})", re.I)
+_SPECIAL = re.compile(r"^(localhost|(\d{1,3}\.){3}\d{1,3})$", re.I)   # exactly 'localhost' or a dotted quad; 'localhost.example.com' / '127.0.0.1.nip.io' are ordinary names
 
 
 def _nontrivial(psl, host):
@@ -266,7 +266,7 @@ def _tld_enum(acc, shard, nshards, seed, tier):
 def _random_hosts(tier):
     B = bundled()
     labels = sorted({l for r in B["rules"][:4000] for l in r.lstrip("!*.").split(".") if l and l != "*"})[:3000]
-    lab = st.one_of(st.sampled_from(labels), st.sampled_from(["zz", "example", "www", "foo-bar", "x1", "city", "svc", "co", "com", "uk", "jp", "ck", "kawasaki", "firenet", "ch", "straße", "ΒΌΛΟΣ", "βόλος", "ǅ", "ﬁn", "İstanbul", "ſ"]))
+    lab = st.one_of(st.sampled_from(labels), st.sampled_from(["localhost", "127", "0", "1", "10", "localhostx", "zz", "example", "www", "foo-bar", "x1", "city", "svc", "co", "com", "uk", "jp", "ck", "kawasaki", "firenet", "ch", "straße", "ΒΌΛΟΣ", "βόλος", "ǅ", "ﬁn", "İstanbul", "ſ"]))
     host = st.lists(lab, min_size=1, max_size=5).map(".".join)
 
     def mk(v):
